@@ -33,6 +33,12 @@ def load_variants() -> List[dict]:
     import importlib
     mod = importlib.import_module("variants")
     out = list(mod.VARIANTS)
+    # global behaviour-preserving transformation: every local variable of the package renamed (no rule may depend on local names)
+    props = [json.loads(l)["id"] for l in (VERIF / "properties.jsonl").read_text().splitlines() if l.strip()]
+    for pr in props:
+        out.append({"prop": pr, "id": "global/rename-all-locals", "kind": "B", "rule": "", "transform": "rename_locals"})
+        out.append({"prop": pr, "id": "global/log-line-and-docstring-in-every-function", "kind": "B", "rule": "", "transform": "add_logging"})
+        out.append({"prop": pr, "id": "global/annotate-every-local-assignment", "kind": "B", "rule": "", "transform": "annotate_locals"})
     # regressions: reverse patches of the fix commits (real defects of the pinned tree)
     for r in getattr(mod, "REGRESSIONS", []):
         out.append(dict(r, kind="M", patch=str(VERIF / "selfval" / "regressions" / r["patch"])))
@@ -56,6 +62,16 @@ def load_variants() -> List[dict]:
 def make_variant(v: dict, root: Path) -> Optional[str]:
     """copy the package and apply the edit; returns None on success or a reason for skipping"""
     dst = root / "pygamma_agreement"
+    if v.get("transform") == "rename_locals":
+        sys.path.insert(0, str(VERIF / "tools"))
+        import rename_locals
+        rename_locals.rename_package(REPO / "pygamma_agreement", dst)
+        return None
+    if v.get("transform"):
+        sys.path.insert(0, str(VERIF / "tools"))
+        import transforms
+        transforms.transform_package(v["transform"], REPO / "pygamma_agreement", dst)
+        return None
     shutil.copytree(REPO / "pygamma_agreement", dst, ignore=shutil.ignore_patterns("__pycache__"))
     if "patch" in v:
         r = subprocess.run(["patch", "-p1", "-s", "-d", str(root), "-i", v["patch"], "--no-backup-if-mismatch"],
@@ -137,7 +153,8 @@ def run_all(props: Optional[List[str]] = None, jobs: int = 16, only: Optional[st
 
 def run_cross_benign(prop: str, jobs: int = 16) -> List[dict]:
     """false-alarm test: `prop`'s check must stay silent on the benign rewrites written for every OTHER property"""
-    vs = [dict(v, prop=prop, id=f"cross/{v['prop']}/{v['id']}") for v in load_variants() if v["kind"] == "B" and v["prop"] != prop]
+    vs = [dict(v, prop=prop, id=f"cross/{v['prop']}/{v['id']}") for v in load_variants() if v["kind"] == "B" and v["prop"] != prop
+          and not v["id"].startswith("global/")]
     if not vs:
         return []
     with ProcessPoolExecutor(max_workers=min(jobs, len(vs))) as ex:
